@@ -22,7 +22,7 @@ RULE = ('True attitude q*: class A = the shared unit-quaternion mixture over all
         '|dip| >= 5 deg, s_a or s_m outside [0.5,2]; distinct = case hash.')
 ASSUMPTIONS = ['direction/reference table of vf/estimators.py (asserted exact on fixed generic attitudes at start-up)',
                'OLEQ: numpy global generator seeded per call']
-REQUIRED_LABELS = ['exact:class=A', 'exact:class=B', 'exact:frame=ENU', 'exact:pose=level', 'exact:pose=inverted', 'exact:pose=half_turn']
+REQUIRED_LABELS = ['exact:weights=default', 'exact:weights=sum1', 'exact:weights=free', 'exact:class=A', 'exact:class=B', 'exact:frame=ENU', 'exact:pose=level', 'exact:pose=inverted', 'exact:pose=half_turn']
 
 TOL = 1e-7
 _ROWS = None
@@ -66,8 +66,16 @@ def _case():
                 'frame': draw(st.sampled_from(['NED', 'ENU'])),
                 's_a': draw(st.one_of(gen.log_uniform(-2, 3), st.just(1.0), st.just(9.81))),
                 's_m': draw(st.one_of(gen.log_uniform(-2, 3), st.just(1.0), st.just(50.0))),
+                'weights': draw(st.one_of(st.none(), st.none(), st.tuples(gen.log_uniform(-1, 0.5), gen.log_uniform(-1, 0.5)).map(list),
+                                          gen.fl(0.05, 0.95).map(lambda w: [w, 1.0 - w]))),
                 'q2': draw(class_b_quaternion()), 'np_seed': draw(st.integers(0, 2**31-1)), 'idx': draw(st.integers(0, 1))}
     return build()
+
+
+def oleq_rate(w, dip):
+    a0, a1 = (1.0, 1.0) if w is None else (float(w[0]), float(w[1]))
+    lam2 = math.sqrt(max(a0*a0 + a1*a1 - 2.0*a0*a1*math.cos(2.0*math.radians(dip)), 0.0))
+    return (1.0 + lam2)/(1.0 + a0 + a1)
 
 
 def _pose(q):
@@ -96,12 +104,21 @@ def evaluate(case, ctx):
     q2 = np.array(case['q2'], dtype=float)
     idx = int(case['idx'])
     worst = 0.0
+    w = case.get('weights')
+    E.set_weights(w)
+    ctx.label('weights=default' if w is None else 'weights=sum1' if abs(w[0] + w[1] - 1.0) < 1e-12 else 'weights=free')
     for row in rows():
         if row.cls == 'B' and not B:
             continue
         frame = case['frame'] if case['frame'] in row.frames else row.frames[0]
         if frame == 'ENU':
             ctx.label('frame=ENU')
+        if row.name == 'OLEQ' and oleq_rate(w, dip) > 0.995:
+            # OLEQ is a power iteration on 0.5*(I + sum a_i W_i): its two largest eigenvalues are (1+a0+a1)/2 and
+            # (1+sqrt(a0^2+a1^2-2 a0 a1 cos 2 dip))/2; when their ratio is this close to 1 (one weight dominating, references
+            # almost parallel) it needs more than its 10000-step cap to reach 1e-7: a speed limit, not an attitude error.
+            ctx.label('oleq_slow_convergence_unjudged')
+            continue
         acc, mag = E.measurements(row, q, frame, dip, s_a, s_m)
         acc2, mag2 = E.measurements(row, q2, frame, dip, s_a, s_m)
         tol = TOL
